@@ -20,8 +20,8 @@ func init() { register("C14", "exploration", runC14) }
 
 var (
 	c14Parents = []string{"projects/p/instances/i", "projects/p/instances/i2"} // one is a string prefix of the other
-	c14Ids     = []string{"t", "t.v2", "u"} // t.v2 continues t with a dotted suffix (sibling files of an on-disk table)
-	c14FamPool = []string{"f1", "f", "g", "f12"} // f < f1 < f12 are string prefixes of one another
+	c14Ids     = []string{"t", "t.v2", "u"}                                    // t.v2 continues t with a dotted suffix (sibling files of an on-disk table)
+	c14FamPool = []string{"f1", "f", "g", "f12"}                               // f < f1 < f12 are string prefixes of one another
 	c14Keys    = []string{"a", "a\x00", "ab", "a\xff", "a\xff\xff", "b", "\xff", "\xff\xff", "\x00"}
 	c14Prefix  = []string{"", "a", "a\x00", "ab", "a\xff", "a\xff\xff", "\xff", "\xff\xff", "b", "c", "\x00", "a\xff\xff\xff"}
 )
